@@ -67,6 +67,16 @@ pub fn options(dialect: Option<&str>) -> prqlc::Options {
         .with_display(prqlc::DisplayOptions::Plain)
 }
 
+/// the default options of the library but for the signature comment: the statement is pretty-printed (format = true)
+pub fn compile_formatted(src: &str, dialect: Option<&str>) -> Outcome<String> {
+    let t = match dialect {
+        None => prqlc::Target::Sql(None),
+        Some(d) => prqlc::Target::Sql(Some(prqlc::sql::Dialect::from_str(d).expect("dialect"))),
+    };
+    let o = prqlc::Options::default().no_signature().with_target(t).with_display(prqlc::DisplayOptions::Plain);
+    guarded(|| prqlc::compile(src, &o))
+}
+
 pub fn compile(src: &str, dialect: Option<&str>) -> Outcome<String> {
     let o = options(dialect);
     guarded(|| prqlc::compile(src, &o))
